@@ -4,6 +4,44 @@ from selftest.mutants import M, T
 
 EXTRA = {}
 
+EXTRA["C05"] = [
+    M("legacy-single-bound-gt", "tx.py", "hash_type & 3 == SIGHASH_SINGLE and input_index >= len(self.tx_outs):", "hash_type & 3 == SIGHASH_SINGLE and input_index > len(self.tx_outs):",
+      ["C05.2"], "SIGHASH_SINGLE with input_index == number of outputs hashes a preimage"),
+    M("annex-any-length", "witness.py", "len(self.items) > 1 and", "bool(self.items) and", ["C05.10"], "one-element witness starting with 0x50 counts as annex"),
+]
+
+EXTRA["C06"] = [
+    M("empty-scriptsig-rule-misses-p2tr", "tx.py", "            script_pubkey.is_p2wpkh() or script_pubkey.is_p2wsh() or script_pubkey.is_p2tr()\n", "            script_pubkey.is_witness_script()\n",
+      ["C06.8"], "helper predicate knows v0 programs only"),
+]
+
+EXTRA["C07"] = [
+    M("final-truth-any", "script.py", "        if decode_num(stack.pop()) == 0:\n            return False\n", "        if not any(stack.pop()):\n            return False\n", ["C07.5"], "negative zero is truthy"),
+]
+
+EXTRA["C08"] = [
+    M("child-drops-pub-version", "hd.py", "            priv_version=self.priv_version,\n            pub_version=self.pub.pub_version,\n", "            priv_version=self.priv_version,\n",
+      ["C08.10"], "children of a zpub key serialise as xpub"),
+]
+
+EXTRA["C09"] = [
+    M("wif-flag-from-last-byte", "pecc.py", "        if len(raw) == 34:\n            compressed = True\n            if raw[-1] != 1:\n                raise ValueError(\"Invalid WIF\")\n            raw = raw[:-1]\n        else:\n            compressed = False\n",
+      "        compressed = raw.endswith(b\"\\x01\")\n        if compressed:\n            raw = raw[:-1]\n", ["C09.5"], "compression flag from the last byte"),
+    M("p2pkh-dispatch-misses-n", "script.py", "    if s[:1] in (\"1\", \"m\", \"n\"):\n", "    if s[:1] in (\"1\", \"m\"):\n", ["C09.5"], "testnet addresses starting with n are not recognised"),
+]
+
+EXTRA["C10"] = [
+    M("sign-break-after-first-input", "psbt.py", "                    psbt_in.sigs[private_key.point.sec()] = sig\n                    signed = True\n",
+      "                    psbt_in.sigs[private_key.point.sec()] = sig\n                    signed = True\n                    break\n", ["C10.10"], "a key signs only the first input it unlocks"),
+]
+
+EXTRA["C11"] = [
+    M("witness-quorum-from-opn", "script.py", "        if int(quorum_n) != len(self.commands) - 3:\n            raise ValueError(f\"OP_n does not match the number of pubkeys: {self}\")\n", "",
+      ["C11.9"], "n of a witness script trusted from OP_n"),
+    M("redeem-quorum-from-count", "script.py", "        if op_code_to_number(self.commands[-2]) != quorum_n:\n            raise ValueError(f\"OP_n does not match the number of pubkeys: {self}\")\n", "",
+      ["C11.9"], "n of a redeem script is the key count, OP_n unchecked"),
+]
+
 EXTRA["C03"] = [
     M("field-add-cond-sub-gt", "pecc.py", "        num = (self.num + other.num) % self.prime\n",
       "        num = self.num + other.num\n        if num > self.prime:\n            num -= self.prime\n", ["C03.10"], "sum equal to the prime is not reduced"),
